@@ -100,7 +100,10 @@ inline void RS16DifopPkt2Adapter (const RS16DifopPkt& src, AdapterDifopPkt& dst)
     v = v << 8;
     v += src.pitch_cali[i*3 + 2];
 
-    uint16_t v2 = (uint16_t)(v * 0.01); // higher resolution to lower one.
+    // higher resolution to lower one. v is 24 bits wide: saturate instead of converting a value
+    // that does not fit uint16_t (undefined behaviour); such an angle fails the range check later.
+    double v_low = v * 0.01;
+    uint16_t v2 = (v_low < 65535.0) ? (uint16_t)v_low : (uint16_t)65535;
 
     dst.vert_angle_cali[i].sign = (i < 8) ? 1 : 0;
     dst.vert_angle_cali[i].value = htons(v2);
